@@ -99,7 +99,7 @@ class CreateTable(ASTNode):
                     type = str(col.type)
                 if col.length is not None:
                     type = f'{type}({col.length})'
-                col_str = f'{Identifier(parts=[col.name]).to_string()} {type}'
+                col_str = f'{col.name if "`" in col.name else Identifier(parts=[col.name]).to_string()} {type}'
                 if col.nullable is True:
                     col_str += ' NULL'
                 elif col.nullable is False:
